@@ -78,8 +78,8 @@ def _ir_command_stub(kind: str):
 
     def stub(I: Interp, args: List[Term], kwargs: Dict[str, Term], st: State, ctx: Ctx, node: ast.AST) -> Term:
         st.events.append(Event("call", f"remote.{kind}", tuple(args[1:]), tuple(sorted(kwargs.items())), ctx.loc(node), ctx.fi.key if ctx.fi else "", False, None, len(st.pc)))
-        st.may_raise("RuntimeError", ("ext", f"{kind}: unsupported mode / missing IR key"), ctx.loc(node))
-        st.may_raise("KeyError", ("ext", f"{kind}: IR key missing"), ctx.loc(node))
+        st.may_raise("RuntimeError", ("ext", f"{kind}: unsupported mode / missing IR key", st.fresh("ext")), ctx.loc(node))
+        st.may_raise("KeyError", ("ext", f"{kind}: IR key missing", st.fresh("ext")), ctx.loc(node))
         n = st.fresh("irtext")
         ir = ("sym", n, ("bytesr", 1, 2000))
         cmd = T.seq("s", (("L", "00000000"), ("hx", ir, 0, None)))
